@@ -117,6 +117,9 @@ def impl_after(args):
                 a = a.copy()
             elif st == 'pickle':
                 a = og.roundtrip(a)
+            elif st == 'deepcopy':
+                import copy as _copy
+                a = _copy.deepcopy(a)
             elif st[0] == 'm' and '/' in st:
                 i, m = st[1:].split('/')
                 og.apply_mut(a.geoshapes[int(i)], m, True)
@@ -173,7 +176,7 @@ def _set_top_dt(d, dt):
 def desc_after(d, steps):
     """the description of the shape the steps leave behind"""
     for st in steps:
-        if st in ('hash', 'set', 'copy', 'pickle'):
+        if st in ('hash', 'set', 'copy', 'pickle', 'deepcopy'):
             continue
         if st[0] == 'm' and '/' in st:
             i, m = st[1:].split('/')
@@ -306,7 +309,9 @@ def pair_lines(a, b, ops=PAIR_OPS):
 
 
 T0 = og.BASE_US
-DTS = [None, (T0, T0), (T0, T0 + 3_600_000_000), (T0 + 1, T0 + 3_600_000_000), (T0, T0 + 3_600_000_001)]
+T1 = og.BASE_NY          # half an hour before a jump of the tz database zone `@zNY`; T0 is half an hour before the jump of `@zE`
+DTS = [None, (T0, T0), (T0, T0 + 3_600_000_000), (T0 + 1, T0 + 3_600_000_000), (T0, T0 + 3_600_000_001),
+       (T1, T1 + 3_600_000_000), (T1 + 1, T1 + 3_600_000_000)]
 
 H1 = ('P', 0, None, [C(1, 1), C(2, 1), C(2, 2), C(1, 2)], [])
 H2 = ('P', 0, None, [C(4, 4), C(6, 4), C(6, 6), C(5, 7), C(4, 6)], [])
@@ -593,7 +598,7 @@ def gen_random(run, n):
         return C(rng.choice(grid), rng.choice(grid), z, m)
 
     def rdt():
-        return og.respell(rng.choice(DTS), rng.choice([0, 0, 0, 1, 2, 3, 4, 5, 6]))
+        return og.respell(rng.choice(DTS), rng.choice([0, 0, 0] + list(range(1, len(og.SPELLINGS)))))
 
     def ring(k):
         # a star-shaped simple ring around (2, 2) on the grid: sort random grid points by angle
@@ -648,12 +653,12 @@ def gen_random(run, n):
             o = o[r:] + o[:r]
             hs = [rewrite(h, True) if h[0] == 'P' else h for h in d[4]]
             rng.shuffle(hs)
-            return ('P', 0 if hole else rng.choice([0, 1]), og.respell(d[2], rng.randrange(7)), o + [o[0]] if rng.random() < 0.6 else o, hs)
+            return ('P', 0 if hole else rng.choice([0, 1]), og.respell(d[2], rng.randrange(len(og.SPELLINGS))), o + [o[0]] if rng.random() < 0.6 else o, hs)
         if k in ('MP', 'ML', 'MG'):
             ms = [rewrite(m) for m in d[2]]
             rng.shuffle(ms)
-            return (k, og.respell(d[1], rng.randrange(7)), ms)
-        return og.with_dt(d, og.respell(_top_dt(d), rng.randrange(7)))
+            return (k, og.respell(d[1], rng.randrange(len(og.SPELLINGS))), ms)
+        return og.with_dt(d, og.respell(_top_dt(d), rng.randrange(len(og.SPELLINGS))))
 
     def perturb(d):
         """differs in exactly one defining field"""
@@ -733,7 +738,8 @@ def gen_iso(run):
         for how in ('copy', 'pickle'):
             for side in ('c', 'o'):
                 for nh in nh_opts:
-                    for dt in ('_', f'{T0}:{T0 + 60_000_000}' if side == 'c' else f'{T0}@o345:{T0 + 60_000_000}@n'):
+                    for dt in ('_', f'{T0}:{T0 + 60_000_000}' if side == 'c' else f'{T0}@o345:{T0 + 60_000_000}@n',
+                               f'{T0}@zE:{T0 + 3_600_000_000}' if how == 'copy' else f'{T1}@zNY:{T1 + 3_600_000_000}@o-300'):
                         variant = 1 if kind == 'ring' and nh == 0 else 0
                         head = f'ob.iso {how} {side} {kind} {variant} {dt} k=1,l=[1;2] {nh} {nseq}'
                         lines.append(head)
@@ -749,7 +755,8 @@ def gen_iso(run):
 
 
 TIME_MUTS = ['setdt:_', f'setdt:{T0 + 5}@o120:{T0 + 9_000_000}@n', f'setdtd:{T0 + 7}@o-330', f'setdtd:{T0 + 7}', 'strip',
-             'buffer:1000000', 'buffer:-9000000000', 'setprop:k=5']
+             'buffer:1000000', f'setdt:{T0 + 5}@zE:{T0 + 3_600_000_000}', f'setdt:{T1}@zNY:{T1 + 3_600_000_000}@o60',
+             'buffer:-9000000000', 'setprop:k=5']
 _TOK = {}
 
 
@@ -779,26 +786,26 @@ def gen_after(run):
     for base in bases:
         for pre in (['hash'], ['set'], ['hash', 'copy'], ['hash', 'pickle'], []):
             for m in TIME_MUTS:
-                for post in ([], ['copy'], ['pickle'], ['hash', 'strip', f'setdtd:{T0 + 7}@n']):
+                for post in ([], ['copy'], ['pickle'], ['deepcopy'], ['hash', 'strip', f'setdtd:{T0 + 7}@n']):
                     n += 1
-                    if run.quick and n % 4:
+                    if run.quick and n % 5:
                         continue
                     emit(base, pre + [m] + post, n)
         if base[0] in ('MP', 'ML', 'MG'):
             # a member's bounds change in place after the multi-shape (hence every member) was hashed
             for pre in (['hash'], ['set'], ['hash', 'pickle'], []):
-                for m in TIME_MUTS[:6]:
+                for m in TIME_MUTS[:8]:
                     for i in (0, len(base[2]) - 1):
                         for post in ([], ['copy']):
                             n += 1
                             emit(base, pre + [f'm{i}/{m}'] + post, n)
     # random step sequences on random bases
-    pool = ['hash', 'set', 'copy', 'pickle'] + TIME_MUTS
+    pool = ['hash', 'set', 'copy', 'pickle', 'deepcopy'] + TIME_MUTS
     for _ in range(run.scale(300, 6000)):
         base = rng.choice(bases)
         steps = [rng.choice(pool) for _ in range(rng.randrange(2, 7))]
         if base[0] in ('MP', 'ML', 'MG') and rng.random() < 0.5:
-            steps.insert(rng.randrange(len(steps) + 1), f'm{rng.randrange(len(base[2]))}/{rng.choice(TIME_MUTS[:6])}')
+            steps.insert(rng.randrange(len(steps) + 1), f'm{rng.randrange(len(base[2]))}/{rng.choice(TIME_MUTS[:8])}')
         n += 1
         emit(base, steps, n)
     return lines
@@ -866,7 +873,8 @@ def check(run):
              '12 outlines (<= 6 vertices) and of 3 hole rings, hole lists of mixed kinds, all member permutations (<= 4) of '
              'the three multi kinds incl. rewritten polygon members and cross-kind pairs, a coordinate grid with Z/M; x the '
              'observations ==, !=, hash equality, len({a,b}), dict look-up.  Seeded random pairs (rewrite / one-field '
-             'perturbation / independent).  Every time bound also written naive / in other UTC offsets (one value).  Observe-mutate-observe: '
+             'perturbation / independent).  Every time bound also written naive / in other UTC offsets / with different tzinfo objects on '
+             'its two ends incl. zones with a jump inside the interval (one value; through copy, pickle, deepcopy, in-place setters).  Observe-mutate-observe: '
              'every kind x {hashed, in a set, hashed then cloned} x every in-place time mutator (also on a member) x {then cloned}, compared '
              'with a freshly built shape.  copy()/pickle x every kind x every mutator alone and random mutator sequences '
              'on either side, observing the other side.  A case is one protocol line; non-trivial = all; distinct by line.',
